@@ -780,6 +780,8 @@ def Len(x):
         return x.length()
     if isinstance(x, CDict):
         return len(x.d)
+    if isinstance(x, Sym) and hasattr(x, "length") and not callable(x.length):
+        return x.length
     return len(x)
 
 
